@@ -31,7 +31,8 @@ RULE = ("case = (m npre npost (l0 l1 .. ln)): a real tachys keyed(..) view whose
         "some only through ancestors), the label of every rendered item incremented after every update through the "
         "row's AtKeyed handle, the field's guard or the root's guard; mode 20 'shaped rows': keyed(..) whose row for key "
         "k is shape[k mod p] of 1-4 random shapes over text | () | <span> | tuple | nested keyed list | Vec | Option | "
-        "Either | EitherOf3 | array | StaticVec (every child position type-erased), 60% of the shapes being or starting "
+        "Either | EitherOf3 | array | StaticVec | Result | EitherKeepAlive (texts being String, &str, Arc<str>, Cow<str> or i64; "
+        "every child position type-erased), 60% of the shapes being or starting "
         "with a (mostly non-empty) inner list, so that every Mountable::insert_before_this of tachys/src/view is the "
         "'next mounted sibling' of apply_diff, histories of 2-6 lists. Non-trivial = at least one update changes the "
         "key sequence; distinct = distinct case hash.")
@@ -50,9 +51,9 @@ TRUSTED = [
     "top-level nodes (theorems: for all builders with bld_ok; var_bld_ok proves it for the builder the run function "
     "uses), so a row that is a nested keyed list / Vec / Option / Either / tuple is covered by the theorems AS A NODE "
     "LIST; what is COMPARED, not proved, is that the real Mountable impls of those row states (KeyedState, VecState, "
-    "OptionState, Either*, tuples, ArrayState, StaticVecState, AnyViewState: mount / unmount / insert_before_this) "
-    "behave like that node list: mount = each node in order before the anchor, insert_before_this = before the row's "
-    "first node (tachys asks only the FIRST row of an inner keyed list, so this needs every sub-view to own a node); "
+    "OptionState, Either*, tuples, ArrayState, StaticVecState, AnyViewState, ResultState, EitherKeepAliveState, the "
+    "string / number states: mount / unmount / insert_before_this) behave like that node list: mount = each node in "
+    "order before the anchor, insert_before_this = before the row's first node (tachys asks only the FIRST row of an inner keyed list, so this needs every sub-view to own a node); "
     "the flattening of a shape into nodes (shape_nodes in Dom/KeyedRun.v) is re-implemented in the oracle",
     "`h_dom c11` mode 13 (nested leptos <For>, inner lists changing between outer updates; the rows are "
     "OwnedViewState / RenderEffect states around KeyedState, tachys/src/reactive_graph): NOT modelled (an item whose "
@@ -152,10 +153,12 @@ def flatten(shape):
         return [x for a in args for x in flatten(a)]
     if t in (4, 5):
         return [x for a in args for x in flatten(a)] + [False]
-    if t == 6:
+    if t in (6, 11):
         return flatten(args[0]) if args else [False]
     if t in (7, 8):
         return flatten(args[1])
+    if t == 12:
+        return flatten(args[2] if args[0] else args[1])
     raise ValueError(shape)
 
 
@@ -164,13 +167,17 @@ def valid_shape(s, depth=0):
         return False
     t, args = s[0], s[1:]
     sub = lambda l: all(valid_shape(x, depth + 1) for x in l)
-    if t in (0, 1, 2):
+    if t == 0:
+        return not args or (len(args) == 1 and args[0] in (0, 1, 2, 3, 4))
+    if t in (1, 2):
         return not args
+    if t == 12:
+        return len(args) == 3 and args[0] in (0, 1) and sub(args[1:])
     if t == 3:
         return len(args) in (2, 3) and sub(args)
     if t in (4, 5):
         return len(args) <= 4 and sub(args)
-    if t == 6:
+    if t in (6, 11):
         return len(args) <= 1 and sub(args)
     if t == 7:
         return len(args) == 2 and args[0] in (0, 1) and valid_shape(args[1], depth + 1)
@@ -186,11 +193,17 @@ def valid_shape(s, depth=0):
 def gen_shape(rng, depth):
     """a row shape; every sub-view owns at least one node"""
     if depth <= 0:
-        return rng.choice([[0], [0], [2], [1]])
+        return rng.choice([[0], [0], [0, rng.randint(1, 4)], [2], [1]])
     sub = lambda: gen_shape(rng, depth - 1)
-    t = rng.choice([0, 2, 3, 3, 4, 4, 4, 5, 5, 6, 7, 8, 9, 10])
-    if t in (0, 2):
+    t = rng.choice([0, 2, 3, 3, 4, 4, 4, 5, 5, 6, 7, 8, 9, 10, 11, 12])
+    if t == 0:
+        return [0, rng.randint(0, 4)]
+    if t == 2:
         return [t]
+    if t == 11:
+        return [11] + ([sub()] if rng.random() < 0.7 else [])
+    if t == 12:
+        return [12, rng.randint(0, 1), sub(), sub()]
     if t == 3:
         return [3] + [sub() for _ in range(rng.choice([2, 2, 3]))]
     if t in (4, 5):
@@ -216,9 +229,13 @@ def gen_list_first_shape(rng):
         return [6, inner]
     if r < 0.85:
         return [7, rng.randint(0, 1), inner]
-    if r < 0.9:
+    if r < 0.88:
         return [8, rng.randint(0, 2), inner]
-    if r < 0.95:
+    if r < 0.91:
+        return [11, inner]
+    if r < 0.93:
+        return [12, 1, gen_shape(rng, 0), inner] if rng.random() < 0.5 else [12, 0, inner, gen_shape(rng, 0)]
+    if r < 0.96:
         return [rng.choice([9, 10]), inner, gen_shape(rng, 0)]
     return [4, inner, gen_shape(rng, 1)]        # a keyed list whose first row is a keyed list
 
@@ -560,11 +577,15 @@ def nontrivial(item, model):
 def show_shape(s):
     t, a = s[0], s[1:]
     if t == 0:
-        return "text"
+        return ["text", "&str", "Arc<str>", "Cow<str>", "i64"][a[0] if a else 0]
     if t == 1:
         return "()"
     if t == 2:
         return "<span>"
+    if t == 11:
+        return "Ok(" + show_shape(a[0]) + ")" if a else "Err"
+    if t == 12:
+        return "EitherKeepAlive{a: %s, b: %s, show_b: %s}" % (show_shape(a[1]), show_shape(a[2]), bool(a[0]))
     if t == 3:
         return "(" + ", ".join(show_shape(x) for x in a) + ")"
     if t in (4, 5, 9, 10):
@@ -609,4 +630,23 @@ def coverage_extra(results):
         ls = r["item"]["case"][3]
         for a, b in zip(ls, ls[1:]):
             pairs.add((tuple(a), tuple(b)))
-    return {"distinct_transitions": len(pairs)}
+    names = {0: "text", 1: "unit", 2: "span", 3: "tuple", 4: "nested-keyed", 5: "vec", 6: "option", 7: "either", 8: "eitherof3",
+             9: "array", 10: "staticvec", 11: "result", 12: "either-keep-alive"}
+    shapes, first = {}, {}
+
+    def walk(s, seen):
+        seen.add(names[s[0]])
+        for x in s[1:]:
+            if isinstance(x, list):
+                walk(x, seen)
+
+    for r in results:
+        c = r["item"]["case"]
+        if c[0] == 20:
+            seen = set()
+            for s in c[4]:
+                walk(s, seen)
+                first[names[s[0]]] = first.get(names[s[0]], 0) + 1
+            for n in seen:
+                shapes[n] = shapes.get(n, 0) + 1
+    return {"distinct_transitions": len(pairs), "shaped_cases_containing": shapes, "row_shapes_by_outermost_view": first}
